@@ -5,6 +5,9 @@ import (
 	"os"
 
 	"github.com/jamespfennell/gtfs/extensions"
+	"pgregory.net/rapid"
+
+	"verifharness/vt"
 )
 
 func jsonMarshal(v any) ([]byte, error)   { return json.Marshal(v) }
@@ -15,3 +18,12 @@ func ptr[T any](v T) *T { return &v }
 func tierThorough() bool { return os.Getenv("VERIF_TIER") == "thorough" }
 
 func noExtension() extensions.Extension { return extensions.NoExtension() }
+
+// genEnv draws the process environment of a case: one time in four the process time zone is something else than
+// the process's own - a zone whose NAME coincides with a configured zone or with an abbreviation, at another offset.
+func genEnv(t *rapid.T) vt.Env {
+	if rapid.IntRange(0, 3).Draw(t, "env?") != 0 {
+		return vt.Env{}
+	}
+	return vt.Env{Local: rapid.SampledFrom(vt.Locals).Draw(t, "processZone")}
+}
